@@ -366,6 +366,10 @@ func (pc *packetConn) Read(b []byte) (n int, err error) {
 	// Although Close() also does this, we inform the server loop early about
 	// the closure to ensure that if any new packets are received from this
 	// connection in the meantime, a new handler will be started.
+	//
+	// Mark the connection as closed first: a server loop that is blocked handing this
+	// connection a datagram (its queue is full) could otherwise never take the notification.
+	pc.closeOnce.Do(func() { close(pc.done) })
 	pc.closeCh <- pc
 	// Returning EOF here ensures that io.Copy() waiting on the downstream for
 	// reads will terminate.
